@@ -1,3 +1,4 @@
+import HranoModel.Lemmas.Template
 import HranoModel.Lemmas.Present
 import HranoModel.Lemmas.Colour
 /-!
@@ -137,5 +138,20 @@ theorem no_color_position_irrelevant (s : Settings) (l : Layout) :
 /-! non-vacuity -/
 example : stripAnsi (fmtVal true 5 ++ [32] ++ fmtVal true (-5) ++ [32] ++ fmtVal true 0) = fmtVal false 5 ++ [32] ++ fmtVal false (-5) ++ [32] ++ fmtVal false 0 := by decide +kernel
 example : shorten true [48, 49, 50, 51, 52, 53, 54, 55, 56, 57] 7 = [48, 49, 50, 0xE2, 0x80, 0xA6, 55, 56, 57] := by decide
+
+/-- `formatValue` is `fmt.Sprintf` of the format the source has now for the value's sign — `negativeFormat` (red) above zero,
+    `positiveFormat` (green) below, the plain format at zero and whenever colour is off (formats regenerated by `tools/facts`,
+    constants written as concatenations folded). -/
+theorem value_format_follows_source (color : Bool) (v : Q) :
+    fmtVal color v =
+      if color then
+        if v > 0 then Tmpl.sprintfA (Facts.valueFormats.getD 0 []) [.q v]
+        else if v < 0 then Tmpl.sprintfA (Facts.valueFormats.getD 1 []) [.q v]
+        else Tmpl.sprintfA (Facts.valueFormats.getD 2 []) [.q v]
+      else Tmpl.sprintfA (Facts.valueFormats.getD 2 []) [.q v] := by
+  simp only [fmtVal, Tmpl.val_v0, Tmpl.val_v1, Tmpl.val_v2]
+
+example : Tmpl.signature (Facts.valueFormats.getD 0 []) = some [true] ∧ Tmpl.signature (Facts.valueFormats.getD 1 []) = some [true]
+    ∧ Tmpl.signature (Facts.valueFormats.getD 2 []) = some [true] := by decide +kernel
 
 end Hrano.C15
